@@ -452,7 +452,7 @@ func (env *SpecEnv) field(base *Val, name string) *Val {
 		// a field read yields a well-typed value (integer range, slice header well-formedness)
 		if env.quant == 0 && env.side != nil {
 			switch r.T.Underlying().(type) {
-			case *types.Basic, *types.Slice:
+			case *types.Basic, *types.Slice, *types.Pointer, *types.Map, *types.Interface:
 				if f := env.eng.typeFact(r, ""); f != "true" {
 					*env.side = append(*env.side, f)
 				}
@@ -633,7 +633,7 @@ func (env *SpecEnv) lenOf(v *Val) string {
 		ks := env.eng.sortOf(u.Key())
 		fn := "card_" + sortKey(ks)
 		if _, ok := env.eng.syms.syms[fn]; !ok {
-			env.eng.syms.add(fn, fmt.Sprintf("(declare-fun %s ((Array %s Bool)) Int)", fn, ks))
+			env.eng.syms.add(fn, fmt.Sprintf("(declare-fun %s ((Array %s Bool)) Int)\n(assert (forall ((d (Array %s Bool)) (k %s)) (! (=> (<= (%s d) 0) (not (select d k))) :pattern ((%s d) (select d k)))))", fn, ks, ks, ks, fn, fn))
 		}
 		return fmt.Sprintf("(%s (select %s %s))", fn, env.s.heap(dn, ds), v.S)
 	}
@@ -806,6 +806,18 @@ func (env *SpecEnv) evalNamedCall(name string, x *ast.CallExpr) *Val {
 		dec, enc := fmt.Sprintf("dec_%s%d", name[2:4], w), fmt.Sprintf("enc_%s%d", name[2:4], w)
 		env.eng.codecSyms(dec, enc, w)
 		return &Val{T: intT, S: fmt.Sprintf("(%s %s)", dec, v.S)}
+	case "gin":
+		// gin(set, obj, elem): elem is in the ghost set `set` of object obj (elements are byte strings)
+		if len(x.Args) != 3 {
+			return env.fail("gin(set, obj, elem)")
+		}
+		id, ok := x.Args[0].(*ast.Ident)
+		if !ok {
+			return env.fail("gin: the set name must be an identifier")
+		}
+		o, e2 := arg(1), arg(2)
+		hn, hs := ghostHeap(id.Name)
+		return &Val{T: boolT, S: fmt.Sprintf("(select (select %s %s) %s)", env.s.heap(hn, hs), o.S, e2.S)}
 	case "bytes1":
 		return &Val{T: types.NewSlice(types.Typ[types.Uint8]), S: "(seq.unit " + arg(0).S + ")"}
 	case "in":
